@@ -25,8 +25,10 @@ SHRINKERS = {"remove", "clear", "retain", "drain", "remove_entry", "pop", "trunc
 GROWERS = {"insert", "extend", "push", "entry", "or_insert", "or_insert_with", "get_or_insert"}
 # reads whose key is computed by resolving an id through aliases: the dependency is registered explicitly in `new`
 COMPUTED_KEY_OK = {
-    "UsedTemplateParameters": "template arguments are resolved through type refs/aliases before the lookup; "
-                              "`new` registers arg -> param dependencies for exactly these resolved ids (not decided here)",
+    "UsedTemplateParameters": "template arguments are resolved through type refs/aliases before the lookup.  The instantiation is "
+                              "re-queued through the UNRESOLVED argument (a Trace edge): every alias / reference on the way joins its "
+                              "target's set and is itself re-queued when the target grows, so by the time the instantiation runs again "
+                              "the resolved id's set is current.  This transitivity argument is stated, not decided",
 }
 
 
